@@ -138,14 +138,20 @@ func (obj *Vector) Push(values ...Object) (index int) {
 // is a fill-pointer. If there is no fill pointer then the length of the
 // vector is shortened by one.
 func (obj *Vector) Pop() (element Object) {
-	if 0 <= obj.FillPtr {
-		if 0 < obj.FillPtr {
-			obj.FillPtr--
-			element = obj.elements[obj.FillPtr]
+	if obj.FillPtr < 0 {
+		if 0 < len(obj.elements) {
+			element = obj.elements[len(obj.elements)-1]
+			obj.elements = obj.elements[:len(obj.elements)-1]
 		}
-	} else if 0 < len(obj.elements) {
-		element = obj.elements[len(obj.elements)-1]
-		obj.elements = obj.elements[:len(obj.elements)-1]
+		return
+	}
+	// FillPtr is exported, keep it inside the elements as Push does.
+	if len(obj.elements) < obj.FillPtr {
+		obj.FillPtr = len(obj.elements)
+	}
+	if n := obj.FillPtr - 1; 0 <= n && n < len(obj.elements) {
+		element = obj.elements[n]
+		obj.FillPtr = n
 	}
 	return
 }
